@@ -25,16 +25,22 @@ var kinds = []struct {
 	{"obj", runOBJ},
 	{"3mf", run3MF},
 	{"write_fault", runWriteFaults},
+	{"encode_session", runEncodeSession},
+	{"concurrent_export", nil}, // runs under the goroutine scheduler: see runCase
 }
 
-func runCase(c *Case, src *choice.Source, out *wproto.Out, id int) {
+func runCase(t *testing.T, c *Case, src, sched *choice.Source, out *wproto.Out, id int) {
 	out.Begin(id)
 	st := &Stats{}
 	var fs []Finding
 	for _, k := range kinds {
-		if k.Name == c.Kind {
+		if k.Name == c.Kind && k.Run != nil {
 			fs = k.Run(src, st)
 		}
+	}
+	if c.Kind == "concurrent_export" {
+		fs = runConcurrentExport(t, src, sched, st)
+		c.Sched = sched.Tape()
 	}
 	c.Tape = src.Tape()
 	var sigs []string
@@ -46,7 +52,7 @@ func runCase(c *Case, src *choice.Source, out *wproto.Out, id int) {
 			out.Finding(id, f.Sig, "mismatch", f.Msg, c)
 		}
 	}
-	out.Trace(id, st.MapDep, []any{c.Tape, st.Bytes, st.Deliveries, st.Frags, st.Zero, st.DataEOF, st.WriteFaults}, []any{sigs, c.Kind, st.Files, st.Faces, st.Rows})
+	out.Trace(id, st.MapDep, []any{c.Tape, c.Sched, st.Steps, st.Bytes, st.Deliveries, st.Frags, st.Zero, st.DataEOF, st.WriteFaults}, []any{sigs, c.Kind, st.Files, st.Faces, st.Rows})
 	out.End(id, sigs)
 	out.Count("evaluations", 1)
 	out.Count("kind."+c.Kind, 1)
@@ -59,6 +65,7 @@ func runCase(c *Case, src *choice.Source, out *wproto.Out, id int) {
 	out.Count("fault.W-ERR", st.WriteFaults)
 	out.Count("faces", st.Faces)
 	out.Count("rows", st.Rows)
+	out.Count("sim_steps", st.Steps)
 	for s := range st.Shapes {
 		out.SetAdd("shapes", c.Kind+" "+s)
 	}
@@ -96,7 +103,7 @@ func TestWorker(t *testing.T) {
 			if err := json.Unmarshal(raw, &c); err != nil {
 				t.Fatal(err)
 			}
-			runCase(&c, choice.Replay(c.Tape), out, i)
+			runCase(t, &c, choice.Replay(c.Tape), choice.Replay(c.Sched), out, i)
 		}
 		out.Finish("done", len(job.Cases))
 	case "dump":
@@ -107,7 +114,7 @@ func TestWorker(t *testing.T) {
 		func() {
 			defer func() { recover() }()
 			for _, k := range kinds {
-				if k.Name == c.Kind {
+				if k.Name == c.Kind && k.Run != nil {
 					k.Run(src, &Stats{})
 				}
 			}
@@ -121,7 +128,7 @@ func TestWorker(t *testing.T) {
 				continue
 			}
 			c := &Case{Property: "C15", Engine: "simio", Kind: names[i%len(names)]}
-			runCase(c, choice.New(job.Seed, fmt.Sprint("c15-", i)), out, i)
+			runCase(t, c, choice.New(job.Seed, fmt.Sprint("c15-", i)), choice.New(job.Seed, fmt.Sprint("c15-sched-", i)), out, i)
 		}
 		out.Finish("done", -1)
 	}
